@@ -243,3 +243,22 @@ M("c18-dispatcher-index-2", "C18", ("_app", "parse_url(self.url)[3]", "parse_url
 M("c18-host-port-swapped-tuple", "C18", ("_http", "        return sock, (hostname, port_from_url, resource)\n    except:", "        return sock, (hostname, resource, port_from_url)\n    except:"), ["R-C18-5"])
 M("c18-dispatcher-inverted", "C18", ("_app", "        if is_ssl:\n            return SSLDispatcher(self, timeout)\n        return Dispatcher(self, timeout)", "        if not is_ssl:\n            return SSLDispatcher(self, timeout)\n        return Dispatcher(self, timeout)"), ["R-C18-5"])
 M("c18-spec-scheme-dict", "C18", ("_url", "    if parsed.path:\n        resource = parsed.path\n    else:\n        resource = \"/\"", "    resource = parsed.path if parsed.path else \"/\""), expect="silent")
+
+# ------------------------------------------------------------------ C11
+M("c11-default-cert-none", "C11", ("_http", '    sslopt: dict = {"cert_reqs": ssl.CERT_REQUIRED}', '    sslopt: dict = {"cert_reqs": ssl.CERT_NONE}'), ["R-C11-1"])
+M("c11-check-hostname-default-false", "C11", ('_http', '            context.check_hostname = sslopt.get("check_hostname", True)', '            context.check_hostname = sslopt.get("check_hostname", False)'), ["R-C11-1"])
+M("c11-protocol-tls", "C11", ("_http", 'sslopt.get("ssl_version", ssl.PROTOCOL_TLS_CLIENT)', 'sslopt.get("ssl_version", ssl.PROTOCOL_TLS)'), ["R-C11-1"])
+M("c11-update-before-default", "C11", ("_http", '    sslopt: dict = {"cert_reqs": ssl.CERT_REQUIRED}\n    sslopt.update(user_sslopt)', '    sslopt: dict = dict(user_sslopt)\n    sslopt.update({"cert_reqs": ssl.CERT_REQUIRED})'), ["R-C11-1", "R-C11-3"])
+M("c11-sni-none", "C11", ("_http", "        server_hostname=hostname,\n    )", "        server_hostname=None,\n    )"), ["R-C11-1"])
+M("c11-server-hostname-ignored", "C11", ("_http", '    if sslopt.get("server_hostname", None):\n        hostname = sslopt["server_hostname"]', '    if sslopt.get("server_hostname", None):\n        pass'), ["R-C11-1"])
+M("c11-env-overrides-explicit-ca", "C11", ("_http", '        and os.path.isfile(cert_path)\n        and user_sslopt.get("ca_certs", None) is None\n', '        and os.path.isfile(cert_path)\n'), ["R-C11-1"])
+M("c11-no-default-certs", "C11", ("_http", '            elif hasattr(context, "load_default_certs"):\n                context.load_default_certs(ssl.Purpose.SERVER_AUTH)', '            elif hasattr(context, "load_default_certs"):\n                pass'), ["R-C11-1"])
+M("c11-verify-mode-optional", "C11", ("_http", '            context.verify_mode = sslopt.get("cert_reqs", ssl.CERT_REQUIRED)', '            context.verify_mode = ssl.CERT_OPTIONAL'), ["R-C11-1"])
+M("c11-check-hostname-false-disables-verify", "C11", ("_http", '        if sslopt.get("cert_reqs", ssl.CERT_NONE) == ssl.CERT_NONE and not sslopt.get(\n            "check_hostname", False\n        ):', '        if sslopt.get("cert_reqs", ssl.CERT_NONE) == ssl.CERT_NONE or not sslopt.get(\n            "check_hostname", True\n        ):'), ["R-C11-1"])
+M("c11-user-context-modified", "C11", ("_http", "    return context.wrap_socket(\n        sock,", "    context.check_hostname = False\n    return context.wrap_socket(\n        sock,"), ["R-C11-1"])
+M("c11-wrap-dropped", "C11", ("_http", "        if is_secure:\n            if HAVE_SSL:\n                sock = _ssl_socket(sock, options.sslopt, hostname)\n            else:\n                raise WebSocketException(\"SSL not available.\")\n\n        return sock, (hostname, port_from_url, resource)", "        return sock, (hostname, port_from_url, resource)"), ["R-C11-2"])
+M("c11-wrap-always", "C11", ("_http", "        if is_secure:\n            if HAVE_SSL:\n                sock = _ssl_socket(sock, options.sslopt, hostname)\n            else:\n                raise WebSocketException(\"SSL not available.\")\n\n        return sock, (hostname, port_from_url, resource)", "        if True:\n            if HAVE_SSL:\n                sock = _ssl_socket(sock, options.sslopt, hostname)\n            else:\n                raise WebSocketException(\"SSL not available.\")\n\n        return sock, (hostname, port_from_url, resource)"), ["R-C11-2"])
+M("c11-tls-before-tunnel", "C11", ("_http", "        if need_tunnel:\n            sock = _tunnel(sock, hostname, port_from_url, auth)\n\n        if is_secure:\n            if HAVE_SSL:\n                sock = _ssl_socket(sock, options.sslopt, hostname)\n            else:\n                raise WebSocketException(\"SSL not available.\")\n",
+                                   "        if is_secure:\n            if HAVE_SSL:\n                sock = _ssl_socket(sock, options.sslopt, hostname)\n            else:\n                raise WebSocketException(\"SSL not available.\")\n        if need_tunnel:\n            sock = _tunnel(sock, hostname, port_from_url, auth)\n"), ["R-C11-3"])
+M("c11-wrong-hostname-to-ssl", "C11", ("_http", "                sock = _ssl_socket(sock, options.sslopt, hostname)\n            else:\n                raise WebSocketException(\"SSL not available.\")\n\n        return sock, (hostname, port_from_url, resource)", "                sock = _ssl_socket(sock, options.sslopt, resource)\n            else:\n                raise WebSocketException(\"SSL not available.\")\n\n        return sock, (hostname, port_from_url, resource)"), ["R-C18-5"], expect="silent")
+M("c11-spec-verify-mode-via-local", "C11", ('_http', '            context.verify_mode = sslopt.get("cert_reqs", ssl.CERT_REQUIRED)', '            mode = sslopt.get("cert_reqs", ssl.CERT_REQUIRED)\n            context.verify_mode = mode'), expect="silent")
